@@ -193,6 +193,9 @@ func (v *Voucher) OwnerPublicKey() (crypto.PublicKey, error) {
 	if len(v.Entries) == 0 {
 		return v.Header.Val.ManufacturerKey.Public()
 	}
+	if v.Entries[len(v.Entries)-1].Payload == nil {
+		return nil, errors.New("last voucher entry has no payload")
+	}
 	return v.Entries[len(v.Entries)-1].Payload.Val.PublicKey.Public()
 }
 
@@ -299,6 +302,13 @@ func (v *Voucher) VerifyEntries() error {
 	// Voucher may have never been extended since manufacturing
 	if len(v.Entries) == 0 {
 		return nil
+	}
+
+	// Every entry must carry its payload
+	for i := range v.Entries {
+		if v.Entries[i].Payload == nil {
+			return fmt.Errorf("voucher entry %d has no payload", i)
+		}
 	}
 
 	// Header info is the concatenation of GUID and DeviceInfo
